@@ -649,7 +649,7 @@ def must_reject(ctx, lines):
                      env={"TRACE": p, "START": "1"})
         os.unlink(p)
         return what, expect, (INVARIANT_TO_CONJUNCT(r.violated) if r.violated else None)
-    with concurrent.futures.ThreadPoolExecutor(max_workers=4) as ex:
+    with concurrent.futures.ThreadPoolExecutor(max_workers=7) as ex:
         for what, expect, got in ex.map(one, enumerate(tests)):
             if got != expect:
                 raise core.MachineryError("oracle self-test: corrupted trace (%s) gave %r, expected %r"
@@ -715,7 +715,8 @@ def run(ctx):
             "enum n<=3, calls in name order, paired hook profiles for the good cases")
     else:
         add(model_run(ctx, "ModLoad_orders.cfg", "n<=3-all-call-orders", True, workers=12),
-            "enum n<=3, every call order, every hook profile for the good cases")
+            "enum n<=3, every call order; for the good cases every post-init/destructor profile, every set of "
+            "declaration-free modules without constructor")
         add(model_run(ctx, "ModLoad_profiles.cfg", "n<=3-all-profiles", True, workers=12),
             "enum n<=3 without self-dependencies, every hook profile")
         add(model_run(ctx, "ModLoad_thorough.cfg", "n<=4", True, workers=14, timeout=2400, coverage=False),
@@ -926,8 +927,11 @@ def run(ctx):
                            % ("the good cases on <=3 modules as far as module_post_init / module_destructor go, all "
                               "of them with every constructor, and every non-empty set of declaration-free modules "
                               "lacking module_constructor only / every entry point" if quick else
-                              "every case on <=3 modules without self-dependency or missing module, and for the good "
-                              "cases on <=3 modules with any call order", ctx.seed))
+                              "every case on <=3 modules without self-dependency or missing module (constructor "
+                              "included: every subset of the declaration-free modules lacks it), and for the good "
+                              "cases on <=3 modules with any call order as far as module_post_init / module_destructor "
+                              "go, plus every non-empty set of declaration-free modules lacking module_constructor "
+                              "only / every entry point", ctx.seed))
     ctx.note("real daemon: %d starts in %.1fs (%d/s); TLC judged %d logs in %.1fs; %d differ from the model"
              % (len(lines), t_real, ctx.cov["daemon_runs_per_s"], judged, t_val, ndrift))
 
